@@ -112,7 +112,8 @@ func httpGen(r *rand.Rand, count int, emit func(op string, args ...string)) {
 		kind := r.Intn(10)
 		switch {
 		case kind < 3: // GET
-			req.WriteString([]string{"GET / HTTP/1.1", "GET /?limit=5 HTTP/1.1", "GET /?limit=3&offset=2 HTTP/1.1", "GET /x HTTP/1.1", "GET /?LIMIT=1 HTTP/1.1", "get / HTTP/1.1", "GET /?limit=abc&offset=7 HTTP"}[r.Intn(7)])
+			req.WriteString([]string{"GET / HTTP/1.1", "GET /?limit=5 HTTP/1.1", "GET /?limit=3&offset=2 HTTP/1.1", "GET /x HTTP/1.1", "GET /?LIMIT=1 HTTP/1.1", "get / HTTP/1.1", "GET /?limit=abc&offset=7 HTTP",
+				"GET /?limit HTTP/1.1", "GET /?limit=3&offset HTTP/1.1", "GET /?x=1&limit&y=2 HTTP/1.1", "GET /?= HTTP/1.1", "GET /?&&= HTTP/1.1", "GET /?offset=-1&limit=0 HTTP/1.1"}[r.Intn(13)])
 			req.WriteString("\r\n")
 		case kind < 8: // POST
 			req.WriteString([]string{"POST / HTTP/1.1", "POST / HTTP/1.1", "POST /x HTTP/1.1", "POST / HTTP"}[r.Intn(4)])
